@@ -166,6 +166,12 @@ def nrtl(job):
                     want = mixmod.calculate_activity_coefficients(pt["T"], _fmix(pt), mixmod.Composition(pt["x"], "molar"), "NRTL")
                     env = {"T": pt["T"], "x": pt["x"], "g12": pt["g12"], "g21": pt["g21"], "al12": pt["al12"], "al21": pt["al21"] or 0.0,
                            "a12": pt["a12"], "a21": pt["a21"]}
+                    try:
+                        on_path = all(terms.evaluate(c, env) for c in leaf.pc)
+                    except Exception:
+                        on_path = False
+                    if not on_path:
+                        continue  # the validation point does not follow this leaf's path
                     got = (terms.evaluate(lift(g1), env), terms.evaluate(lift(g2), env))
                     job.validated(tag, close(want[0], got[0], 1e-9) and close(want[1], got[1], 1e-9), "%r vs %r" % (want, got))
             if k == 0:
